@@ -111,6 +111,8 @@ func C10(c *Ctx) {
 	r.Rule("R10.3", "injective encoding: a preimage built by concatenating two or more variable-length fields per element without length prefix or delimiter is ambiguous (key||value): different write sets can produce the same root.")
 	r.NotDecided = append(r.NotDecided, "collision resistance; sensitivity as a behavioural fact")
 	r.Rule("R10.5", "the root commits to what the database holds: every Put / Delete that SimpleLedger.Commit issues on the state batch uses a key built by one of the ledger's key constructors (composeStateKey, compositeKey), and for each data kind written (account record, code, storage key) the Put and the Delete use the same constructor; a change that is hashed into the root but written under another key leaves the database behind the root.")
+	r.Rule("R10.6", "the journal and state hash see every key the block touched (shared with C13 R13.6): no function of internal/ledger removes an entry from an account's dirty set; a removed entry is skipped by getStateJournalAndComputeHash and Commit, so the root no longer commits to a deletion or overwrite the block executed.")
+	c.c13Undo("R10.6")
 	c.commitKeyDiscipline("R10.5")
 
 	type target struct{ spec, what string }
